@@ -38,7 +38,7 @@ class LinkNative(Contract):
     def native_cases(self, tier, rng):
         for rx, tx in EM_PAIRS:
             for direction in ("rx.transmitters=tx", "tx.receivers=rx"):
-                for scenario in ("edit-both-sides", "reopen-edit-unread", "relink", "copy"):
+                for scenario in ("edit-both-sides", "reopen-edit-unread", "relink", "copy", "components-then-partner-edit"):
                     yield {"family": "em", "rx": rx, "tx": tx, "direction": direction, "scenario": scenario}
                 # linking by assigning the survey description with the identifiers given as text
                 for form in ("plain", "braces"):
@@ -146,7 +146,23 @@ class LinkNative(Contract):
                     return f"copying the receivers did not produce a linked copy of the transmitters ({case})"
                 if rx.transmitters is not tx or tx.receivers is not rx:
                     return f"copying changed the originals' links ({case})"
+            if case["scenario"] == "components-then-partner-edit":
+                rx.channels = [1.0, 2.0]
+                chans = rx.add_data({"c1": {"values": np.arange(len(rx.vertices), dtype=float)}, "c2": {"values": np.arange(len(rx.vertices), dtype=float) + 1}})
+                rx.add_components_data({"dBdt": chans})
             uid_rx, uid_tx = rx.uid, tx.uid
+        if case["scenario"] == "components-then-partner-edit":
+            # a later session edits a shared parameter through the transmitters only: the receivers' component list is shared metadata too
+            with Workspace(path, mode="r+") as ws:
+                ws.get_entity(uid_tx)[0].channels = [3.0, 4.0]
+            with Workspace(path, mode="r") as ws:
+                a_rx, a_tx = ws.get_entity(uid_rx)[0], ws.get_entity(uid_tx)[0]
+                for ent in (a_rx, a_tx):
+                    if list(ent.channels) != [3.0, 4.0] or list(ent.metadata["EM Dataset"].get("Property groups", [])) != ["dBdt"]:
+                        return f"after an edit through the transmitters in a later session, {ent.name} holds channels {ent.channels} and component groups {ent.metadata['EM Dataset'].get('Property groups')} (expected [3.0, 4.0] and ['dBdt']) ({case})"
+                comp = a_rx.components or {}
+                if sorted(c.name for c in comp.get("dBdt", [])) != ["c1", "c2"]:
+                    return f"the receivers' component 'dBdt' no longer resolves its two channels after an edit through the transmitters ({case})"
         if case["scenario"] in ("edit-both-sides", "reopen-edit-unread"):
             with Workspace(path, mode="r+") as ws:
                 # fetch one side only and edit before ever reading its partner
